@@ -180,9 +180,8 @@ theorem strip_valText (n : Nat) (v : J) (h : tupleValOk n v = true) : strip (val
 theorem setValues_tuple {t : Transport} (sc : ScalarCodec t) (lib : Lib) (dt : String) (n : Nat)
     (vals : List J) (hne : (dt == "") = false) (hk : classify dt = .tuple n)
     (hvals : vals.all (tupleValOk n) = true) (hrep : vals.all valRepr = true) (hnn : vals ≠ []) :
-    setValues lib (some dt)
-      (t.apply (match tupleExport vals with | some s => J.str s | none => J.null)) =
-      .ok (some dt, vals) := by
+    ∃ s, tupleExport vals = some s ∧
+      setValues lib (some dt) (t.apply (J.str s)) = .ok (some dt, vals) := by
   have hts : vals.map valText ≠ [] := by simpa using hnn
   have hexp : tupleExport vals =
       some (String.ofList ('[' :: joinSep ',' (vals.map valText) ++ [']'])) := by
@@ -202,7 +201,7 @@ theorem setValues_tuple {t : Transport} (sc : ScalarCodec t) (lib : Lib) (dt : S
   have hnes : (String.ofList ('[' :: joinSep ',' (vals.map valText) ++ [']']) == "") = false := by
     have := ofList_ne_empty (l := '[' :: joinSep ',' (vals.map valText) ++ [']']) (by simp)
     simpa using this
-  rw [hexp]
+  refine ⟨_, hexp, ?_⟩
   simp only [apply_str sc, setValues, hnes, Bool.false_eq_true, if_false, hconv]
   cases hv : vals with
   | nil => exact absurd hv hnn
@@ -225,8 +224,10 @@ theorem classify_tuple_of {dt : String} (hl : lowerStr dt = dt) (h : isTupleDtyp
     · subst h1; revert h; decide
     · by_cases h2 : dt = "bool"
       · subst h2; revert h; decide
-      · simp [Gen.DTypes.dtypeMap, List.lookup, h1, h2, Ne.symm h1, Ne.symm h2]
-  exact ⟨_, by simp only [classify, hn, h, if_true]⟩
+      · have e1 : (dt == "str") = false := by simpa using h1
+        have e2 : (dt == "bool") = false := by simpa using h2
+        simp [Gen.DTypes.dtypeMap, List.lookup, e1, e2]
+  exact ⟨natOfDigits (dt.toList.take (dt.toList.length - 6)), by simp only [classify, hn, h, if_true]⟩
 
 theorem classify_not_tuple_of {dt : String} (hl : lowerStr dt = dt) (h : isTupleDtype dt = false) :
     notTupleKind (classify dt) = true := by
@@ -236,7 +237,9 @@ theorem classify_not_tuple_of {dt : String} (hl : lowerStr dt = dt) (h : isTuple
     · subst h1; decide
     · by_cases h2 : dt = "bool"
       · subst h2; decide
-      · simp [Gen.DTypes.dtypeMap, List.lookup, h1, h2, Ne.symm h1, Ne.symm h2, h]
+      · have e1 : (dt == "str") = false := by simpa using h1
+        have e2 : (dt == "bool") = false := by simpa using h2
+        simp [Gen.DTypes.dtypeMap, List.lookup, e1, e2, h]
   simp only [classify, hn, Bool.false_eq_true, if_false]
   repeat' split
   all_goals rfl
@@ -268,9 +271,10 @@ theorem setValues_transport {t : Transport} (sc : ScalarCodec t) (lib : Lib) (p 
         have hvals' : p.values.all (tupleValOk n) = true := by
           rw [hk] at hvals
           simpa [valOk_tuple] using hvals
-        have := setValues_tuple sc lib dt n p.values hne' hk hvals' hrep (by simp [hv])
+        obtain ⟨s, hs, hset⟩ := setValues_tuple sc lib dt n p.values hne' hk hvals' hrep (by simp [hv])
         have hne2 : (dt != "") = true := by simpa using hne
-        simpa [propValueJ, hd, hv, hnt', hne2] using this
+        rw [hv] at hs hset
+        simpa [propValueJ, hd, hv, hnt', hne2, hs] using hset
       have hk := classify_not_tuple (classify_not_tuple_of hlow' hnt)
       have hall := getAll_transport sc lib (classify dt) (v0 :: vs) hk (by rw [← hv]; exact hvals)
       have hne' : (dt == "") = false := by simpa using hne
@@ -338,7 +342,7 @@ theorem layout_cond_transport {t : Transport} (sc : ScalarCodec t) (L : List Str
   · exact (nodupKeys_iff _).2 (hp.nodup_iff.2 hn)
 
 theorem denoteProp_write {t : Transport} (sc : ScalarCodec t) (lib : Lib) (p : Prp)
-    (hwf : wfProp lib p = true) (hr : reprProp p = true) (htf : tupleFreeProp p = true) :
+    (hwf : wfProp lib p = true) (hr : reprProp p = true) :
     denoteProp lib (t.apply (writeProp p)) = some p := by
   obtain ⟨hL, hn⟩ := propKvs_keys p
   rw [writeProp_eq]
@@ -348,7 +352,7 @@ theorem denoteProp_write {t : Transport} (sc : ScalarCodec t) (lib : Lib) (p : P
   simp only [wfProp, Bool.and_eq_true] at hwf
   obtain ⟨⟨⟨hid, hname⟩, hcard⟩, hvals⟩ := hwf
   simp only [reprProp, Bool.and_eq_true] at hr
-  obtain ⟨⟨⟨⟨⟨⟨⟨hu, hdf⟩, hdp⟩, hdv⟩, hun⟩, hrf⟩, hvo⟩, _⟩ := hr
+  obtain ⟨⟨⟨⟨⟨⟨⟨hu, hdf⟩, hdp⟩, hdv⟩, hun⟩, hrf⟩, hvo⟩, hvr⟩ := hr
   have hargs : propArgsOf (fun py => find (odmlName Gen.Format.propertyMap py)
         (t.order (Transport.applyKvs t (propKvs p)))) =
       { oid := some (.str p.id), name := optOf p.name, values := some (t.apply (propValueJ p)),
@@ -374,7 +378,7 @@ theorem denoteProp_write {t : Transport} (sc : ScalarCodec t) (lib : Lib) (p : P
     | some dt =>
       simp only [hd, Bool.and_eq_true, beq_iff_eq] at hvals
       simp [optStrJ, optOf_str, ctorDtype, hvals.1.1.2, hvals.1.2]
-  have hsv := setValues_transport sc lib p hvals htf
+  have hsv := setValues_transport sc lib p hvals hvr
   have hrc := readCard_cardJ sc p.valCard hcard
   simp only [createProp, makeId, hidv, Option.getD_some, getD_optOf, hnt, if_true, hdt]
   simp only [getD, Option.getD_some, hsv, hrc]
@@ -432,15 +436,14 @@ theorem secsOfKvs_find (lib : Lib) (kvs : List (String × J)) :
     split <;> simp [ih]
 
 theorem denotePropList_write {t : Transport} (sc : ScalarCodec t) (lib : Lib) (ps : List Prp)
-    (hwf : ps.all (wfProp lib) = true) (hr : ps.all reprProp = true)
-    (htf : ps.all tupleFreeProp = true) :
+    (hwf : ps.all (wfProp lib) = true) (hr : ps.all reprProp = true) :
     denotePropList lib (Transport.applyList t (ps.map writeProp)) = some ps := by
   induction ps with
   | nil => rfl
   | cons p r ih =>
-    simp only [List.all_cons, Bool.and_eq_true] at hwf hr htf
-    simp [Transport.applyList, denotePropList, denoteProp_write sc lib p hwf.1 hr.1 htf.1,
-      ih hwf.2 hr.2 htf.2]
+    simp only [List.all_cons, Bool.and_eq_true] at hwf hr
+    simp [Transport.applyList, denotePropList, denoteProp_write sc lib p hwf.1 hr.1,
+      ih hwf.2 hr.2]
 
 /-- The pairs `get_sections` emits for one Section. -/
 def secKvs (id : String) (name type d r l rp inc : J) (sc pc : Card.Card)
@@ -475,9 +478,9 @@ theorem secKvs_keys (id : String) (name type d r l rp inc : J) (sc pc : Card.Car
 
 mutual
 theorem denoteSec_write {t : Transport} (sc : ScalarCodec t) (lib : Lib) : (s : Sec) →
-    wfSec lib s = true → reprSec s = true → tupleFreeSec s = true →
+    wfSec lib s = true → reprSec s = true →
     denoteSec lib (t.apply (writeSec s)) = some s
-  | .mk id name type d r l rp inc scd pcd props secs, hwf, hr, htf => by
+  | .mk id name type d r l rp inc scd pcd props secs, hwf, hr => by
     obtain ⟨hL, hn⟩ := secKvs_keys id name type d r l rp inc scd pcd props secs
     rw [writeSec_eq]
     change denoteSec lib (t.apply (.obj (secKvs id name type d r l rp inc scd pcd props secs))) = _
@@ -487,19 +490,18 @@ theorem denoteSec_write {t : Transport} (sc : ScalarCodec t) (lib : Lib) : (s : 
     obtain ⟨⟨⟨⟨⟨⟨⟨⟨hid, hname⟩, htype⟩, hsc⟩, hpc⟩, hpw⟩, hpd⟩, hsw⟩, hsd⟩ := hwf
     simp only [reprSec, Bool.and_eq_true] at hr
     obtain ⟨⟨⟨⟨⟨⟨⟨hty, hdf⟩, hrf⟩, hlk⟩, hrp⟩, hic⟩, hpr⟩, hsr⟩ := hr
-    simp only [tupleFreeSec, Bool.and_eq_true] at htf
     have hnm : isAtom name = true := by
       cases name <;> simp [isName] at hname <;> rfl
     have hprops : propsOfKvs lib (t.order (Transport.applyKvs t
         (secKvs id name type d r l rp inc scd pcd props secs))) = some props := by
       rw [propsOfKvs_find, find_transport sc _ _ hn]
       simp [secKvs, find_append, find_cons, find_emit, orElse_none_left, orElse_some_left,
-        Transport.apply, denoteProps, denotePropList_write sc lib props hpw hpr htf.1]
+        Transport.apply, denoteProps, denotePropList_write sc lib props hpw hpr]
     have hsecs : secsOfKvs lib (t.order (Transport.applyKvs t
         (secKvs id name type d r l rp inc scd pcd props secs))) = some secs := by
       rw [secsOfKvs_find, find_transport sc _ _ hn]
       simp [secKvs, find_append, find_cons, find_emit, orElse_none_left, orElse_some_left,
-        Transport.apply, denoteSecsJ, denoteSecList_write sc lib secs hsw hsr htf.2]
+        Transport.apply, denoteSecsJ, denoteSecList_write sc lib secs hsw hsr]
     have hargs : secArgsOf (fun py => find (odmlName Gen.Format.sectionMap py)
           (t.order (Transport.applyKvs t (secKvs id name type d r l rp inc scd pcd props secs)))) =
         { oid := some (.str id), name := optOf name, type := optOf type, definition := optOf d,
@@ -519,13 +521,13 @@ theorem denoteSec_write {t : Transport} (sc : ScalarCodec t) (lib : Lib) : (s : 
       readCard_cardJ sc scd hsc, readCard_cardJ sc pcd hpc, hpd, hsd]
     simp
 theorem denoteSecList_write {t : Transport} (sc : ScalarCodec t) (lib : Lib) : (l : List Sec) →
-    wfSecs lib l = true → reprSecs l = true → tupleFreeSecs l = true →
+    wfSecs lib l = true → reprSecs l = true →
     denoteSecList lib (Transport.applyList t (writeSecs l)) = some l
-  | [], _, _, _ => by simp [writeSecs, Transport.applyList, denoteSecList]
-  | s :: r, hwf, hr, htf => by
-    simp only [wfSecs, reprSecs, tupleFreeSecs, Bool.and_eq_true] at hwf hr htf
-    simp [writeSecs, Transport.applyList, denoteSecList, denoteSec_write sc lib s hwf.1 hr.1 htf.1,
-      denoteSecList_write sc lib r hwf.2 hr.2 htf.2]
+  | [], _, _ => by simp [writeSecs, Transport.applyList, denoteSecList]
+  | s :: r, hwf, hr => by
+    simp only [wfSecs, reprSecs, Bool.and_eq_true] at hwf hr
+    simp [writeSecs, Transport.applyList, denoteSecList, denoteSec_write sc lib s hwf.1 hr.1,
+      denoteSecList_write sc lib r hwf.2 hr.2]
 end
 
 /-- The pairs `to_dict` emits for the Document. -/
@@ -549,7 +551,7 @@ theorem docKvs_keys (d : Doc) :
   · exact List.Nodup.sublist hs (by decide)
 
 theorem denote_write {t : Transport} (sc : ScalarCodec t) (lib : Lib) (d : Doc)
-    (hwf : wfDoc lib d = true) (hr : dictRepr d = true) (htf : tupleFree d = true) :
+    (hwf : wfDoc lib d = true) (hr : dictRepr d = true) :
     denote lib (t.apply (wrap (writeDoc d))) = some d := by
   obtain ⟨hL, hn⟩ := docKvs_keys d
   rw [writeDoc_eq]
@@ -574,7 +576,7 @@ theorem denote_write {t : Transport} (sc : ScalarCodec t) (lib : Lib) (d : Doc)
   have hsecs : secsOfKvs lib (t.order (Transport.applyKvs t (docKvs d))) = some d.secs := by
     rw [secsOfKvs_find, find_transport sc _ _ hn]
     simp [docKvs, find_append, find_cons, find_emit, orElse_none_left, orElse_some_left,
-      Transport.apply, denoteSecsJ, denoteSecList_write sc lib d.secs hsw hsr htf]
+      Transport.apply, denoteSecsJ, denoteSecList_write sc lib d.secs hsw hsr]
   have hargs : docArgsOf (fun py => find (odmlName Gen.Format.documentMap py)
         (t.order (Transport.applyKvs t (docKvs d)))) =
       { oid := some (.str d.id), version := optOf d.version, author := optOf d.author,
